@@ -20,7 +20,7 @@ impl Property for Prop {
         "C16"
     }
     fn rule(&self) -> &'static str {
-        "histories: a receiver state (14 recipes incl. unfinished trains on every slot, full / empty free list, remembered label, aliasing ids) is driven through a seeded prefix of 1..200 hostile packets (random bytes, structured headers, mutated valid packets, wrong CRC / length / frag id, unfinished trains); then: reset label memory; provision one buffer (Ok or 'free list full' both fine); probe 1 = valid complete packet with an explicit label (delivered buffer given back); probe 2 = valid fragmented PDU of 2..5 fragments on a seeded fragment id (all 256 reachable) and label kind, built by the real encapsulator (or hand-made when the sender is unusable). A history is conclusive when the prefix did not panic (a panic is C05's finding); non-trivial = conclusive with a prefix of at least 1 packet that was not all padding; fingerprint = hash(state, prefix bytes, probe parameters)."
+        "histories: a receiver state (15 recipes incl. unfinished trains on every slot, full / empty free list, remembered label, aliasing ids) is driven through a seeded prefix of 1..200 hostile packets (random bytes, structured headers, mutated valid packets, wrong CRC / length / frag id, unfinished trains); then: reset label memory; provision one buffer (Ok or 'free list full' both fine); probe 1 = valid complete packet with an explicit label (delivered buffer given back); probe 2 = valid fragmented PDU of 2..5 fragments on a seeded fragment id (half of them ids with an unfinished train or aliasing one; all 256 reachable) and label kind, built by the real encapsulator (or hand-made when the sender is unusable). A history is conclusive when the prefix did not panic (a panic is C05's finding); non-trivial = conclusive with a prefix of at least 1 packet that was not all padding; fingerprint = hash(state, prefix bytes, probe parameters)."
     }
     fn gens(&self, cx: &Cx) -> Vec<Gen> {
         vec![Gen { name: "histories", count: cx.n(30_000, 2_000_000), exhaustive: false }]
@@ -101,7 +101,20 @@ impl Property for Prop {
             let _ = d.provision_storage(b);
         }
         // probe 2: fragmented PDU on any fragment id and label kind
-        let frag_id = rng.byte();
+        // half of the probes land on a fragment id that is likely to have an unfinished train (the state's
+        // open ids, the ids used by the hostile traffic pool) or on an id aliasing one of them
+        let frag_id = if rng.chance(1, 2) {
+            let mut busy: Vec<u8> = st.open_ids.clone();
+            busy.extend([5u8, 1, 0, 9, 200, 77]);
+            let b = busy[rng.below(busy.len())];
+            match rng.below(3) {
+                0 => b,
+                1 => b.wrapping_add(st.slots as u8),
+                _ => b.wrapping_sub(st.slots as u8),
+            }
+        } else {
+            rng.byte()
+        };
         let plen2 = 1 + rng.below(st.pdu_size.max(2) - 1).min(st.pdu_size.saturating_sub(1));
         let plen2 = plen2.min(st.pdu_size).max(1);
         let pdu2 = rng.bytes(plen2);
